@@ -562,6 +562,10 @@ def run(fx, chk, tier):
                             "%s.%s is not initialised from stream data by read_box (%s)" % (s, nm, "set to a constant" if src == "const" else "no source found"), rsite)
     # ---------------- S6: bytes taken from the stream reach the decoded value without content-changing edits
     s6(fx, chk)
+    # ---------------- S7: bit-packed words (instances owned by C05)
+    from packs_common import compose
+    chk.rule("S7", "bit-packed words are unpacked by the decoder exactly as the encoder packs them: both sides route every field to the bit positions of the layout (C05 R3 instances)")
+    compose(fx, chk, tier, "S7", "C05", ["R3"], floor=34, what="packed-word obligations")
     chk.analysed["box_types"] = len(ms)
     chk.analysed["cells"] = ncells
     chk.analysed["boxes_not_compared"] = sorted(INCONCLUSIVE)
